@@ -305,10 +305,35 @@ def string_shard(task):
 
 
 # ----------------------------------------------------------------------------------------- matches
+def anchored_regexes():
+    """Alternations in which only one branch carries an anchor, and anchors inside groups: the patterns for which
+    "starts with ^" does not mean "anchored" (6-8 nodes, beyond the size bound of the complete enumeration)."""
+    a, b, dot, cl = ("lit", "a"), ("lit", "b"), ("dot",), ("cls", "ab")
+    xs = [a, b, ("cat", a, b), ("cat", b, a), cl, dot]
+    bol, eol = ("bol",), ("eol",)
+    out = []
+    for x in xs:
+        for y in xs:
+            out += [("alt", ("cat", bol, x), y), ("alt", x, ("cat", bol, y)), ("alt", ("cat", x, eol), y), ("alt", x, ("cat", y, eol)), ("alt", ("cat", bol, x), ("cat", y, eol)),
+                    ("alt", ("cat", bol, x, eol), y), ("cat", bol, ("grp", ("alt", x, y))), ("cat", ("grp", ("alt", x, y)), eol), ("cat", ("grp", ("alt", ("cat", bol, x), y)), b),
+                    ("alt", ("cat", bol, x), ("alt", y, ("cat", bol, a))), ("cat", ("opt", ("grp", bol)), x, y) if False else ("alt", ("cat", bol, ("star", x)), y)]
+    seen, res = set(), []
+    for r in out:
+        if r not in seen:
+            seen.add(r)
+            res.append(r)
+    return res
+
+
 def regex_shard(task):
     rk, lo, hi, tier = task
     part = runner.Part()
-    rs = regexref.regexes(5 if tier == "thorough" else 4)[lo:hi]
+    if lo == "anchored":
+        rs = anchored_regexes()
+        name, bound = f"matches-anchored-alternations:{rk}", "alternations with an anchor in one branch / anchors around groups over 6 sub-patterns x texts of length <= 4 over {a, b}"
+    else:
+        rs = regexref.regexes(5 if tier == "thorough" else 4)[lo:hi]
+        name, bound = f"matches:{rk}", "regexes of <= 4 nodes (thorough 5) x texts of length <= 4 over {a, b}"
     ts = list(regexref.texts("ab", 4))
     import celpy.celtypes as ct
     prog = celrun.Prog(rk, "t.matches(p)")
@@ -320,7 +345,7 @@ def regex_shard(task):
             exp = regexref.search(r, t)
             judge(part, rk, "matches", f"{r[0]}", f"{t!r}.matches({pat!r})", prog.eval({"t": ct.StringType(t), "p": P}), exp)
             n += 1
-    part.space(f"matches:{rk}", n, n, bound="regexes of <= 4 nodes (thorough 5) x texts of length <= 4 over {a, b}")
+    part.space(name, n, n, bound=bound)
     return part
 
 
@@ -399,7 +424,7 @@ def run(ctx):
         ctx.run_shards(index_shard, [(rk, ctx.tier)])
         ctx.run_shards(map_shard, [(rk, ctx.tier)])
         ctx.run_shards(string_shard, [(rk, lo, hi, ctx.tier) for lo, hi in runner.shards(85, 12)])
-        ctx.run_shards(regex_shard, [(rk, lo, hi, ctx.tier) for lo, hi in runner.shards(nre, 32)])
+        ctx.run_shards(regex_shard, [(rk, lo, hi, ctx.tier) for lo, hi in runner.shards(nre, 32)] + [(rk, "anchored", 0, ctx.tier)])
         ctx.run_shards(malformed_shard, [rk])
         ctx.run_shards(escape_shard, [rk])
     ctx.part.sample({"macro": "[0, 1, 2].exists_one(v, 1 / v > 0)", "index": "[7, 8][-1]", "map": '{"a": 10, "a": 20}["a"]', "string": '"é😀".contains("😀")', "regex": '"abab".matches("(a|b)*$")'})
